@@ -174,7 +174,7 @@ type ReverseInnerSearcher struct {
 	reverseDFA      *lazy.DFA
 	forwardDFA      *lazy.DFA
 	prefilter       prefilter.Prefilter
-	pikevm          *nfa.PikeVM
+	pikevm          *pooledPikeVM
 	innerLen        int  // Length of the inner literal for calculating positions
 	universalPrefix bool // True if prefix is .* (matches everything from start)
 	universalSuffix bool // True if suffix ends with .* (matches everything to end)
@@ -289,7 +289,7 @@ func NewReverseInnerSearcher(
 	}
 
 	// Create PikeVM for fallback (uses full pattern)
-	pikevm := nfa.NewPikeVM(fullNFA)
+	pikevm := newPooledPikeVM(fullNFA)
 
 	// Detect universal prefix/suffix for Find optimization
 	// For patterns like `.*connection.*`:
